@@ -211,7 +211,7 @@ class DiffOperator(operator.Operator, abc.ABC):
 
         elif all(isinstance(param, str) for param in order2):
             # list of variables: derivatives w/r to all variable pairs
-            order2 = {{Pair(pair): {}} for pair in get_combinations(order2)}
+            order2 = {Pair(pair): {} for pair in get_combinations(order2)}
 
         elif not isinstance(order2, dict) and all(
             isinstance(pair, tuple) for pair in order2
